@@ -21,7 +21,7 @@ CHECKS = {
              "response code) variant, area tables and keys, byte-sized session area, encryption flag provenance, header-only "
              "failed responses; W10 (= C05-E3) the pump's one silent return is restricted to the command/response stream, so no "
              "root event of a top-level decode is swallowed; W11 payload-kind table of the size-prefixed walker; W12 no discarded "
-             "generators; W13 (= C04-V4) every member of a named range is a member. Event values for concrete bytes are not decided.",
+             "generators; W13 (= C04-V4) every member of a named range is a member. Event values for concrete bytes are not decided. W14 every walker hands (size, value) back on every completing path.",
         note="trusted: CPython ast; E1 model (guards G1-G7); semantics of int.from_bytes, dataclasses.fields order and generators.",
         technique="pinned table snapshot + decision-list evaluation over all type descriptors + partial evaluation / def-use rules on the walkers",
         design="4/C01",
@@ -36,7 +36,7 @@ CHECKS = {
              "a second reader idiom, in-place big-endian accumulation with two's-complement correction, is recognised and its "
              "threshold judged exactly); B4 nobody else defines to_bytes; B5 every valid set fits its "
              "width (exhaustive over 102 primitive types). These are necessary conditions of the round trip; byte equality "
-             "on concrete inputs is a value clause and is not decided.",
+             "on concrete inputs is a value clause and is not decided. B1 also as a guard table: which width / signedness reaches int.to_bytes under which outcome of `<param> is None`.",
         note="trusted: CPython ast; int.from_bytes/int.to_bytes are mutual inverses for equal (width, order, signedness).",
         technique="reader/writer agreement by def-use comparison + who-defines rule + exhaustive table check",
         design="4/C02",
@@ -55,7 +55,7 @@ CHECKS = {
              "classes; R6 counts are never tested by truthiness; R7 error details and skip amounts as linear forms; R8 outcome "
              "tables of bytes_parsed / assert_done over their path summaries (closed -> obsolete error; armed and counted + size > "
              "limit -> anticipated error / retire, skip the rest, exceeded error; close quiet iff counted == limit); R9 no "
-             "generator of the decode core is created and discarded. Concrete sizes are not computed.",
+             "generator of the decode core is created and discarded. Concrete sizes are not computed. R2 judges the effective anticipate_only of the charge site including the callee's default.",
         note="trusted: CPython ast; L (E1). Comparisons on runtime integers are deliberately not pattern-matched.",
         technique="partial evaluation (loop specialisation) + typestate over abstract traces, CFG dominance, who-may-call rules",
         design="4/C03",
@@ -70,7 +70,7 @@ CHECKS = {
              "V4 the membership chain (_INT.is_valid, ValidValues.__contains__/get, NamedRange, enum class membership) has "
              "the membership meaning - decided as decision tables over path summaries, NamedRange as an abstract data type (the "
              "constructor's bindings substituted into the observers' conditions: member exactly for start <= n < end); V5 valid-value and naming facets of all 719 pinned types (exhaustive); V6 unknown "
-             "command code -> ValueConstraintViolatedError with ValidValues(TPM_CC). The iff over concrete values is not decided.",
+             "command code -> ValueConstraintViolatedError with ValidValues(TPM_CC). The iff over concrete values is not decided. V6 also checks the declared type named by the unknown-command-code error.",
         note="trusted: CPython ast; E1 model (guards G1-G7); 'first offending field' relies on C01-W4 ordering.",
         technique="CFG dominance + def-use + who-may-call rule + pinned valid-value tables",
         design="4/C04",
@@ -84,7 +84,7 @@ CHECKS = {
              "errors carry the running command code, assigned only from the <root>.commandCode event. E3: the silent "
              "end-of-input return is control dependent on the stream type, the depleted flag and a root event; the error "
              "classes store exactly the surplus bytes / command code they are given (path summaries of their constructors). Decides the "
-             "shape of the pump on all paths, not which events precede the error for a concrete truncation point.",
+             "shape of the pump on all paths, not which events precede the error for a concrete truncation point. Also: the running command code is captured; boundary test polarity; handler exits of the pump (a finished processor is never resumed, constraint errors are re-raised on every path).",
         note="trusted: CPython ast; generator send/StopIteration semantics; processor protocol (C10-T1). The events emitted "
              "before the error (value clause) are not decided.",
         technique="CFG + typestate abstract interpretation (path-sensitive on depleted flag / look-ahead byte), def-use, control dependence",
@@ -100,7 +100,7 @@ CHECKS = {
              "(C20 T1-T5, W1), the specialised traces (C03-R1, C01-F), the pump typestate (C10-T1) or call-site shapes; an "
              "undischarged site is reported with its input dependence; encrypted() is folded over all parameter areas of L and "
              "must not raise on any; X3 every resolvable call in the decode core matches its callee's signature. X2 termination: acyclic type graph, messages and "
-             "byte-sized list elements consume >= 1 byte, only bounded data-driven loop forms, one pull per pump iteration.",
+             "byte-sized list elements consume >= 1 byte, only bounded data-driven loop forms, one pull per pump iteration. X5: no read of a local that no assignment reaches, no name bound nowhere (symtable), in the decode core; one handler proven unreachable for command codes in TPM_CC is not judged (DESIGN 4, round-6 note).",
         note="trusted: CPython ast; L (E1). Implicit failures outside the closed idiom list (e.g. a TypeError from an operator on "
              "an unexpected object) are not excluded - no untyped-Python static analysis can. Open finding K2 is listed in "
              "known_findings.json. Assumes the command_code argument is a TPM_CC member.",
@@ -145,7 +145,7 @@ CHECKS = {
              "being TPMA_SESSION masks in L; S4 command then response at the stream's root path, mode threaded, no own "
              "termination; S5 separate_events cuts exactly at root-path MarshalEvents and events_to_objs alternates and carries "
              "the command code into exactly the next message (decision lists on the path summaries of one loop iteration); S6 = "
-             "C05-E3: a stream ends silently only at a message boundary. Equality of concatenated event lists is not decided.",
+             "C05-E3: a stream ends silently only at a message boundary. Equality of concatenated event lists is not decided. S6 also requires that the silent end-of-stream return exists.",
         note="trusted: CPython ast; C01-W5 (child paths extend the parent) for the unambiguity of the cut.",
         technique="def-use on abstract traces (partial evaluation) + shape rules on the pairing helpers",
         design="4/C09",
@@ -158,7 +158,7 @@ CHECKS = {
              "with no byte request in between. T2: the buffer parameters of the pump and of the three lazy front-end "
              "scanners are used only through iter()/next() (except inside raise). T3: the processor never receives the "
              "buffer or iterator. T6: a scanner starts one traversal of its raw source only (bytes / lists restart). T5 (= C05-E3): the empty prefix of a non-stream decode reports depletion like every other "
-             "prefix. This is the structural core of the property; concrete pull counts are its dynamic view.",
+             "prefix. This is the structural core of the property; concrete pull counts are its dynamic view. T6 also: next() only on an iterator made from the source (never on the raw parameter).",
         note="trusted: CPython ast; Python iterator/generator protocol. pcapng.marshal materialises its input by design (documented in the code) and is outside T2.",
         technique="CFG + typestate abstract interpretation of the pump, who-may-use rules on iterator/buffer variables",
         design="4/C10",
@@ -172,7 +172,7 @@ CHECKS = {
              "tables and keys, recognise encrypted areas by TPM2B_ENCRYPTED_PARAM's field names, remember a Response's command "
              "code; A5 sibling rule: every node the decoder announces with an event but returns as None is mapped to None by "
              "the events->object builder too; A7 (= C01-W7) a union arm without payload decodes to None. A1-A5 are decided on path summaries (hidden / marker / list parent / value per field "
-             "as a decision list), not on the text of the branches. These are necessary conditions; the round trips themselves are not decided.",
+             "as a decision list), not on the text of the branches. These are necessary conditions; the round trips themselves are not decided. A8: no unbound local / undefined name in common/object.py.",
         note="trusted: CPython ast; L (E1); dataclass equality semantics.",
         technique="agreement (sibling) rules between decoder traces, the static layout model and the two converters",
         design="4/C11",
@@ -211,7 +211,7 @@ CHECKS = {
              "the folder never needs folding; Q4 row shape: indentation len(path)-1, value text form, hex column = binary "
              "re-encoding of that event (the row is compared as a function of the two column conditions on path summaries, colour "
              "codes stripped, nested f-strings and str.join flattened), attribute rows only from the main loop with path+PathNode(attr). The rendered text "
-             "is not decided.",
+             "is not decided. Q5 list folding mode by element type, one membership test (same enclosing path and field name), empty-list flag, the folder pulls; Q6 no unbound local / undefined name in the printers.",
         note="trusted: CPython ast; L (E1); C02-B2 for the hex column's content.",
         technique="must-dataflow (guard dominance) + typestate over the printer CFGs + FOLLOW-set facts from the static layout model",
         design="4/C14",
@@ -226,7 +226,7 @@ CHECKS = {
              "bytes re-yielded, dispatch table; F6 swtpm scanner: the transition table (state x input class -> next state, pending "
              "digit, marker progress, emitted byte, end) is extracted from the summaries of one loop iteration and compared with "
              "the documented machine; F7 an input ending inside a digit pair raises ValueError in both text scanners. "
-             "Language equivalence of the two text scanners with the documented formats and dpkt's parsing are not decided.",
+             "Language equivalence of the two text scanners with the documented formats and dpkt's parsing are not decided. F8 transition table of the hex scanner (two-pending-characters form), F9 decision table of the format detector and lenient default, F5 packet loop / payload source / unwrap loop, F10 no unbound local / undefined name in the front-ends.",
         note="trusted: CPython ast; L (E1); dpkt. The scanner automata are not explored (that would be model checking).",
         technique="sibling agreement (delegation/return) + dominance of validation tests + constants recomputed from the static layout model + state-machine shape lint",
         design="4/C15",
@@ -250,7 +250,7 @@ CHECKS = {
              "2**(8*size)-1. M2 evaluates the accessor Bit.__get__ (abstractly, nothing of the repository runs) for every mask "
              "of every attribute type with the register value symbolic - each bit a symbol, case split where the code branches "
              "on a bit - and requires the wiring (value & mask) >> trailing_zeros(mask) for all values at once; the printer "
-             "emits one row per mask with value bits under mask ones. The rendered strings for concrete values are not decided.",
+             "emits one row per mask with value bits under mask ones. The rendered strings for concrete values are not decided. M2 also: the decorator attaches attributes() and returns the class.",
         note="trusted: CPython ast; E1 model of tpm_bitfield (guards G1/G5/G7 re-validated each run). Decides the "
              "table clause and the accessor/row shape, not concrete rendered strings.",
         technique="static table reconstruction (abstract evaluation of spec modules) + bit-vector abstract evaluation of the accessor + AST def-use patterns",
@@ -278,7 +278,7 @@ CHECKS = {
              "bytes and warn mode to the selected front-end and prints every item the selected printer yields (hex for bytes) "
              "with no cut in the loop; L4 the type search decodes strictly and catches exactly the documented error classes; "
              "L5 example output is under the command-code filter / exact-type selection and rendered from one event list. The "
-             "statement's observable (stdout / exit status of a process) is not decided.",
+             "statement's observable (stdout / exit status of a process) is not decided. L2 the suggestion lookup cannot fail; L7 an eager Canonical has decoded inside its constructor with the arguments it was given, `type` lists the decoded type name (responses with their command code); L6 no unbound local / undefined name.",
         note="weakest claim: shape of __main__.py only; trusted: argparse semantics.",
         technique="table agreement + decision lists over path summaries of the CLI functions",
         design="4/C19",
